@@ -9,6 +9,7 @@ import (
 	"strconv"
 	"strings"
 
+	windataplane "github.com/projectcalico/calico/felix/dataplane/windows"
 	"github.com/projectcalico/calico/felix/dataplane/windows/hns"
 	"github.com/projectcalico/calico/felix/dataplane/windows/policysets"
 	"github.com/projectcalico/calico/felix/proto"
@@ -445,6 +446,61 @@ func googleClone(r *proto.Rule) *proto.Rule {
 	return &c
 }
 
+// flatten runs the REAL flattenTiers + rewritePriorities on deep copies; a panic is reported.
+func flatten(lists [][]*hns.ACLPolicy) (out []*hns.ACLPolicy, panicked string) {
+	defer func() {
+		if r := recover(); r != nil {
+			out, panicked = nil, fmt.Sprint(r)
+		}
+	}()
+	cp := make([][]*hns.ACLPolicy, len(lists))
+	for i, l := range lists {
+		for _, r := range l {
+			c := *r
+			cp[i] = append(cp[i], &c)
+		}
+	}
+	out = windataplane.VerifFlattenTiers(cp)
+	// flattenTiers may return rules shared with its input; copy before rewriting priorities
+	res := make([]*hns.ACLPolicy, len(out))
+	for i, r := range out {
+		c := *r
+		res[i] = &c
+	}
+	windataplane.VerifRewritePriorities(res, policysets.PolicyRuleMaxPriority)
+	return res, ""
+}
+
+func renderTiers(lists [][]*hns.ACLPolicy) string {
+	var out []string
+	for _, l := range lists {
+		out = append(out, renderRules(l))
+	}
+	return strings.Join(out, " /// ")
+}
+
+// flattenHasEmptiedPorts: some flattened rule has no port constraint on a side although every
+// rule of the input tiers with the same id has one there (the signature of the disjoint-ports bug).
+func flattenHasEmptiedPorts(lists [][]*hns.ACLPolicy, flat []*hns.ACLPolicy) bool {
+	type side struct{ l, r bool }
+	byID := map[string]side{}
+	for _, l := range lists {
+		for _, r := range l {
+			if r.Id != "" {
+				byID[r.Id] = side{r.LocalPorts != "", r.RemotePorts != ""}
+			}
+		}
+	}
+	for _, r := range flat {
+		if sd, ok := byID[r.Id]; ok && r.Id != "" {
+			if (sd.l && r.LocalPorts == "") || (sd.r && r.RemotePorts == "") {
+				return true
+			}
+		}
+	}
+	return false
+}
+
 // probeRule is the per-rule oracle on the real code: for a supported rule, "some generated HNS rule
 // matches the packet" must equal "the proto rule matches the packet" (whatever the chunk size), on a
 // set of probe packets derived from the rule itself.
@@ -639,6 +695,77 @@ func exec(h *rt.H, s *state, op string) string {
 				map[string]any{"op": op, "hns": acts[0], "policy": ref, "rules": renderRules(rules)})
 		default:
 			h.Count("pkt:oracle-checked")
+		}
+		return hv + " " + ref
+	case "flat", "fpkt":
+		inbound := w[1] == "in"
+		type tier struct {
+			eot bool
+			ids []string
+		}
+		var tiers []tier
+		for _, t := range strings.Split(w[2], "/") {
+			q := strings.Split(t, ":")
+			tiers = append(tiers, tier{q[0] == "1", splitL(",", q[1])})
+		}
+		var lists [][]*hns.ACLPolicy
+		for _, t := range tiers {
+			lists = append(lists, s.ps.GetPolicySetRules(t.ids, inbound, t.eot))
+		}
+		flat, panicked := flatten(lists)
+		if w[0] == "flat" {
+			if panicked != "" {
+				h.Count("flat:panic")
+				h.OracleFail("flatten-panic", "flattenTiers panics ("+panicked+") while combining a pass rule with the next tier's rule",
+					map[string]any{"op": op, "tiers": renderTiers(lists)})
+				return "panic"
+			}
+			h.Count(fmt.Sprintf("flat:tiers=%d", len(tiers)))
+			return renderRules(flat)
+		}
+		pr, _ := strconv.Atoi(w[3])
+		sp, _ := strconv.Atoi(w[5])
+		dp, _ := strconv.Atoi(w[7])
+		p := pkt{proto: pr, src: parseDotted(w[4]), sport: sp, dst: parseDotted(w[6]), dport: dp}
+		// multi-tier reference: tier by tier, pass moves on, pass in the last tier is a drop
+		ref := "Block"
+		allSupp := true
+		for i, t := range tiers {
+			for _, id := range t.ids {
+				if s.pols[id] == nil || !s.supp[id] {
+					allSupp = false
+				}
+			}
+			v := s.tierVerdict(t.ids, inbound, t.eot, p)
+			if v != "pass" {
+				ref = v
+				break
+			}
+			if i == len(tiers)-1 {
+				ref = "Block"
+			}
+		}
+		h.Count("fverdict:" + ref)
+		if panicked != "" {
+			return "panic " + ref
+		}
+		acts := hnsActions(flat, p)
+		hv := "-"
+		if len(acts) > 0 {
+			hv = strings.Join(acts, ",")
+		}
+		switch {
+		case !allSupp:
+			h.Count("fpkt:unsupported-or-missing(no-oracle)")
+		case len(acts) != 1 || acts[0] != ref:
+			sig := "flatten-verdict-mismatch"
+			if flattenHasEmptiedPorts(lists, flat) {
+				sig = "flatten-disjoint-ports-any"
+			}
+			h.OracleFail(sig, "the flattened multi-tier HNS rules give a different verdict than evaluating the tiers in order",
+				map[string]any{"op": op, "hns": acts, "policy": ref, "tiers": renderTiers(lists), "flat": renderRules(flat)})
+		default:
+			h.Count("fpkt:oracle-checked")
 		}
 		return hv + " " + ref
 	case "rule":
@@ -916,6 +1043,32 @@ func genCase(h *rt.H) []string {
 		}
 	}
 	queries()
+	if h.Chance(0.6) {
+		// multi-tier layouts: split the policies over 2..3 tiers
+		var ts []string
+		nt := 2 + h.Intn(2)
+		for i := 0; i < nt; i++ {
+			var tids []string
+			for _, pid := range pols {
+				if h.Intn(nt) == i || h.Chance(0.2) {
+					tids = append(tids, pid)
+				}
+			}
+			if len(tids) == 0 {
+				tids = []string{rt.Pick(h, pols)}
+			}
+			ts = append(ts, rt.Pick(h, []string{"0", "1", "1"})+":"+strings.Join(tids, ","))
+		}
+		tspec := strings.Join(ts, "/")
+		if !big {
+			d := rt.Pick(h, []string{"in", "out"})
+			ops = append(ops, fmt.Sprintf("flat %s %s", d, tspec))
+			for i := 0; i < 5+h.Intn(6); i++ {
+				ops = append(ops, fmt.Sprintf("fpkt %s %s %d %s %d %s %d", d, tspec, rt.Pick(h, []int{6, 6, 17, 132, 1}),
+					dotted(0x0a000000+uint32(h.Intn(12))), rt.Pick(h, g.pp)+rt.Pick(h, []int{0, 0, 1}), dotted(0x0a000000+uint32(h.Intn(300))), rt.Pick(h, g.pp)+rt.Pick(h, []int{0, 0, 1})))
+			}
+		}
+	}
 	if h.Chance(0.3) {
 		// change an IP set, refresh, query again; sometimes delete a policy
 		sid := rt.Pick(h, g.sets)
@@ -951,7 +1104,7 @@ func main() {
 			h.Op(op, out)
 			k := strings.Fields(op)[0]
 			h.Count("op:" + k)
-			if k == "pkt" && out != "bad-op" {
+			if (k == "pkt" || k == "fpkt") && out != "bad-op" {
 				seen[strings.Fields(out)[1]] = true
 			}
 			if k == "rule" && strings.HasPrefix(out, "err:") {
